@@ -14,11 +14,11 @@ import (
 	"sync"
 
 	"github.com/orda-io/orda/client/pkg/errors"
-	ordalog "github.com/orda-io/orda/client/pkg/log"
-	"github.com/sirupsen/logrus"
 	"github.com/orda-io/orda/client/pkg/iface"
+	ordalog "github.com/orda-io/orda/client/pkg/log"
 	"github.com/orda-io/orda/client/pkg/model"
 	"github.com/orda-io/orda/client/pkg/orda"
+	"github.com/sirupsen/logrus"
 	"google.golang.org/protobuf/proto"
 )
 
